@@ -79,6 +79,7 @@ type gen struct {
 	callArgsRec map[string][]T
 	escaped map[*ssa.Alloc]bool
 	nfa int
+	ci *cfgInfo
 	specPkg *types.Package // package whose scope resolves unqualified names while a callee's contract is evaluated
 	uncontracted []string
 	srcOrd map[ssa.Instruction]int
